@@ -61,6 +61,39 @@ Theorem C20_mix_phases_grow : forall present inl p,
 Proof. exact grow_phases_lemma. Qed.
 Print Assumptions C20_mix_phases_grow.
 
+(* ---- inlets of another property package: index_overlap and the receiver's index cache (state kept between inlets
+   and between calls; keys are the chemicals of the non-zero flows IN THE ORDER they were entered) *)
+(* invariant: every cached entry equals a fresh computation; lookups preserve it, evictions too *)
+Theorem C20_index_cache_invariant : forall rk c key,
+  cache_ok rk c ->
+  fst (index_overlap rk c key) = left_indices rk key /\ cache_ok rk (snd (index_overlap rk c key)).
+Proof. exact index_overlap_ok. Qed.
+Print Assumptions C20_index_cache_invariant.
+Theorem C20_index_cache_eviction_safe : forall rk c c', incl c' c -> cache_ok rk c -> cache_ok rk c'.
+Proof. exact cache_ok_incl. Qed.
+Print Assumptions C20_index_cache_eviction_safe.
+
+(* over EVERY history of mix_and_split calls on the same outlets and package (any inlets, packages, entry orders):
+   the results are those of the same history with the cache wiped before every call *)
+Theorem C20_mix_history_cache_independent : forall n rk s calls,
+  cache_ok rk (pk_cache s) ->
+  run_calls n rk s calls = run_calls_nocache n rk (pk_top s) (pk_bot s) calls.
+Proof. exact run_calls_cache_independent. Qed.
+Print Assumptions C20_mix_history_cache_independent.
+
+(* what a (cache-free) transfer does: flow k of the inlet's entry order lands on the receiver's position of the same
+   chemical, all other positions of the receiver keep their value *)
+Theorem C20_foreign_transfer : forall rk pk acc flows order li,
+  left_indices rk (map (fun k => nth k pk 0%nat) order) = Ok li ->
+  NoDup (map (fun k => nth k pk 0%nat) order) -> length acc = length rk ->
+  let acc' := add_at acc li (gather flows order) in
+  (forall k, (k < length order)%nat ->
+     nth (nth k li 0%nat) rk 0%nat = nth (nth k order 0%nat) pk 0%nat /\
+     nthq acc' (nth k li 0%nat) == nthq acc (nth k li 0%nat) + nthq flows (nth k order 0%nat)) /\
+  (forall j, ~ In j li -> nthq acc' j = nthq acc j) /\ length acc' = length acc.
+Proof. exact foreign_transfer_lemma. Qed.
+Print Assumptions C20_foreign_transfer.
+
 (* ------------------------------------------------------------------ handle_infeasible_flow_rates *)
 (* a normal return leaves every entry in [0, maxmol] *)
 Theorem C20_clip_range : forall mol maxmol strict,
@@ -565,6 +598,16 @@ Qed.
 Example C20_ex_mix_split_multi :
   xsplit_eqb (mix_and_split_multi 2 [false; true; true; false] [(2%nat, [1; 2]); (0%nat, [0; 4])] [1 # 2; 1 # 2])
              [false; true; true; false] [[0; 0]; [0; 0]; [1 # 2; 3]; [0; 0]] [[0; 0]; [0; 0]; [1 # 2; 3]; [0; 0]] = true.
+Proof. reflexivity. Qed.
+
+(* two calls; receiver package [0;1;2], inlet package [2;0;1] (chemical 2 first).  The first inlet enters chemical 0 then
+   chemical 1, the second chemical 1 then chemical 0: same set, other order; each flow reaches its own chemical *)
+Example C20_ex_foreign_orders :
+  list_eqb call_eqb
+    (run_calls 3 [0; 1; 2]%nat (mkPK [0; 0; 0] [0; 0; 0] [])
+       [([mkFI (Some [2; 0; 1]%nat) [0; 5; 7] [1; 2]%nat], [1; 1; 1]);
+        ([mkFI (Some [2; 0; 1]%nat) [0; 11; 13] [2; 1]%nat], [1; 1 # 2; 1])])
+    [([5; 7; 0], [0; 0; 0], None); ([11; 13 # 2; 0], [0; 13 # 2; 0], None)] = true.
 Proof. reflexivity. Qed.
 
 (* clipping: negative K makes a bottom flow negative; strict raises, non-strict clips with a warning *)
